@@ -135,6 +135,8 @@ class RbWorld:
         elif a == "FsDelete":
             self.delete(act["f"])
         elif a == "FsMove":
+            if not os.path.exists(self.uni.path(act["f"])) or os.path.exists(self.uni.path(act["g"])):
+                return None  # not possible in the current disk state (the handler may have expired the file)
             self.move(act["f"], act["g"])
         else:
             removed = []
